@@ -840,6 +840,15 @@ def lift_one(d, repo, canary=False, rename_suffix=None):
                 while p >= 0:
                     offs.append(p)
                     p = t.s.find(old, p + 1)
+            # a substitution text that starts (ends) with an identifier character must start (end) at a word boundary
+            def _wb(p):
+                if (old[0].isalnum() or old[0] == '_') and p > 0 and (t.s[p - 1].isalnum() or t.s[p - 1] == '_'):
+                    return False
+                e = p + len(old)
+                if (old[-1].isalnum() or old[-1] == '_') and e < len(t.s) and (t.s[e].isalnum() or t.s[e] == '_'):
+                    return False
+                return True
+            offs = [p for p in offs if _wb(p)]
             for p in reversed(offs):
                 t.replace(p, p + len(old), new, keep_origin=True)
             tot += len(offs)
